@@ -369,11 +369,17 @@ class ParityTM(Parity):
                     for d in targets:
                         self.env[d] = O if p == O else (E if p == E else T)
                     return
-            cn = f.nodes[f.strip_casts(n['cond'])]
-            if cn['k'] == 'BinaryOperator' and cn.get('op') == '==' and n.get('else', -1) < 0:
-                a, b = f.nodes[f.strip_casts(cn['ch'][0])], f.nodes[f.strip_casts(cn['ch'][1])]
-                if a['k'] == 'DeclRefExpr' and a.get('d') in self.folded and 'cv' in b and int(b['cv']) == 0:
-                    return          # the tie-break at the fixed point of the reflection (lat == 0): both parities agree there
+            def conjuncts(j):
+                m = f.nodes[f.strip_casts(j)]
+                if m['k'] == 'BinaryOperator' and m.get('op') == '&&':
+                    return conjuncts(m['ch'][0]) + conjuncts(m['ch'][1])
+                return [m]
+            if n.get('else', -1) < 0:
+                for cn in conjuncts(n['cond']):
+                    if cn['k'] == 'BinaryOperator' and cn.get('op') == '==':
+                        a, b = f.nodes[f.strip_casts(cn['ch'][0])], f.nodes[f.strip_casts(cn['ch'][1])]
+                        if a['k'] == 'DeclRefExpr' and a.get('d') in self.folded and 'cv' in b and int(b['cv']) == 0:
+                            return  # the tie-break at the fixed point of the reflection (lat == 0): both parities agree there
         Parity.ex(self, nid)
 
     def assign(self, n):
